@@ -1,4 +1,4 @@
-CONSTANTS MaxDigits = 5
+CONSTANTS MaxDigits = 4
 EmitOn = TRUE
 INIT Init
 NEXT Next
